@@ -1,0 +1,21 @@
+//go:build verif
+
+package syncutil
+
+// Contracts for the deductive verifier in /verif (govc); comments only.
+
+/*@
+// Pool: Get hands out some object of the pool's type - a new one or one that
+// was put back earlier, with whatever contents it had.  Assumed, not
+// verified here (the body goes through sync.Pool and a type assertion).
+func (*Pool).Get
+  trusted
+  logged
+  requires p != nil
+  ensures v != nil
+
+func (*Pool).Put
+  trusted
+  logged
+  requires p != nil
+@*/
